@@ -7,6 +7,7 @@ from __future__ import annotations
 import itertools as itt
 from fractions import Fraction as Fr
 
+import contracts.dsl  # noqa: F401  (registration order)
 from y0vc.contract import REGISTRY, Contract, contract
 from y0vc import exproracle as xo
 from y0vc.concrete import y0mod
@@ -78,10 +79,9 @@ def _subset(rng, names):
 # ---- marginalize / Sum.safe
 def _s_marg(pool, rng):
     e = pool.gen(rng.randint(0, 2))
-    f = sorted(xo.free_vars(e))
     if not xo.well_scoped(e):
         return None
-    return {"self": e, "ranges": [_V(n) for n in _subset(rng, f)]}
+    return {"self": e, "ranges": [_V(n) for n in _subset(rng, xo.NAMES)]}
 
 
 def _j_marg(args, out, models):
@@ -103,8 +103,7 @@ _register("y0.dsl.Sum.safe", ["C13", "C10", "C01"],
 def _s_sumsimplify(pool, rng):
     dsl = y0mod("y0.dsl")
     p = rng.choice(pool.plain_atoms) if rng.random() < 0.7 else pool.gen(1)
-    f = sorted(xo.free_vars(p))
-    rs = [n for n in f if rng.random() < 0.6]
+    rs = [n for n in xo.NAMES if rng.random() < 0.5]
     if not rs or isinstance(p, dsl.Zero):
         return None
     return {"self": dsl.Sum(p, frozenset(_V(n) for n in rs))}
@@ -217,3 +216,19 @@ _register("y0.mutate.contract.contract", ["C13"], _s_contract, lambda a: y0mod("
           "contract(e) denotes e")
 _register("y0.mutate.contract.recursive_contract", ["C13"], _s_contract,
           lambda a: y0mod("y0.mutate.contract").recursive_contract(a["e"]), _j_same_p("e"), "recursive_contract(e) denotes e")
+
+
+# ------------------------------------------------------------------------------------------------ symbolic side of assumed contracts
+def _sum_safe_result(self, ex, a):
+    import z3
+    from y0vc.exprs import VExpr, theory
+    T = theory(ex)
+    e = a.expression
+    arr = T.set_to_array(ex.as_set(a.ranges))
+    sv, oks = T.sumv(arr, e.t)
+    r = T.fresh("sum")
+    ex.assume(z3.Implies(oks, z3.And(T.ok(r), T.den(r) == sv)))
+    return VExpr(r)
+
+
+type(REGISTRY["y0.dsl.Sum.safe"]).result = _sum_safe_result
